@@ -324,6 +324,8 @@ class GEngine(object):
                 "property": self.prop, "seed": self.args.seed, "class": ["golden-unstable", ""],
                 "signature": sig, "golden_pair": True, "job": j.to_json(),
                 "hashseeds": [self.seeds.hashseed("golden", j.id, 1), self.seeds.hashseed("golden", j.id, 2)],
+                "envs": [g1.get("env_used"), g2.get("env_used")],
+                "perturbed_environment": g2.get("perturbed_environment"),
                 "differing": sorted(diff), "status": [g1["status"], g2["status"]]})
             reporter.add(sig, rp, "two fresh runs of %s differ in %s" % (j.id, sorted(diff)[:3]))
 
@@ -424,9 +426,10 @@ class GEngine(object):
             rf = json.load(fp)
         if rf.get("golden_pair"):
             job = J.Job.from_json(rf["job"])
-            g1 = campaign.fresh_run(job, campaign.ENV_A, rf["hashseeds"][0])
+            envs = rf.get("envs") or [campaign.ENV_A, campaign.ENV_B]
+            g1 = campaign.fresh_run(job, envs[0] or campaign.ENV_A, rf["hashseeds"][0])
             jb = job.clone(cwd="/sim/other/cwd") if job.meta.get("cwd_free") else job
-            g2 = campaign.fresh_run(jb, campaign.ENV_B, rf["hashseeds"][1])
+            g2 = campaign.fresh_run(jb, envs[1] or campaign.ENV_B, rf["hashseeds"][1])
             if g1["files"] != g2["files"] or g1["status"] != g2["status"]:
                 print("VIOLATION property=%s replay=%s" % (self.prop, path))
                 return 1
